@@ -525,6 +525,17 @@ pub fn drive_c20(a: &Args, out: &mut Out) {
                 variants.push(json!([seq_json(x), seq_json(y)]));
                 runs.push(rec::guarded(|| ops_json(&capture_diff_slices(alg, &xc, &yc))).unwrap_or(json!([[-1]])));
             }
+            // old and new of different element types whose (lawful) Hash impls disagree for equal
+            // values: same equalities, so the same ops
+            {
+                let xo: Vec<rec::OldT> = x.iter().map(|v| rec::OldT(*v)).collect();
+                let yn: Vec<rec::NewT> = y.iter().map(|v| rec::NewT(*v)).collect();
+                variants.push(json!([seq_json(x), seq_json(y)]));
+                runs.push(
+                    rec::guarded(|| ops_json(&similar::capture_diff(alg, &xo[..], 0..xo.len(), &yn[..], 0..yn.len())))
+                        .unwrap_or(json!([[-1]])),
+                );
+            }
             let case = out.next_case();
             out.emit(&json!({"ev":"determ","case":case,"alg":alg_name(alg),"old":seq_json(x),"new":seq_json(y),
                 "variants":variants,"runs":runs}));
